@@ -35,7 +35,7 @@
    op 7  AsyncClientRecvIterator: iter_received_packets(timeout=T) on the asyncio backend, one __anext__ per arrival
          input  L [A 7; tmo T; L [A d (packet after d ticks, 0 = buffered) | A (-1) (connection error) ...]]
          output L [L [A code; A dt] ...]                                                                      *)
-From EN Require Import Lib.Bytes Lib.Sx IO.Retry IO.RetryEnv IO.SendAll IO.SendMsg IO.Budget IO.Payload IO.ClientLocks Run.IOCommon Gen.ParamsC11.
+From EN Require Import Lib.Bytes Lib.Sx IO.Retry IO.RetryEnv IO.SendAll IO.SendMsg IO.Budget IO.Datagram IO.Payload IO.ClientLocks Run.IOCommon Gen.ParamsC11.
 Open Scope Z_scope.
 
 Definition as_recvans (x : sx) : option recvans :=
@@ -107,43 +107,22 @@ Definition as_call (x : sx) : option (tmo * option lockans) :=
 Definition of_itstep (s : itstep) : sx :=
   L [of_rvout (it_out s); L (map of_wait (it_waits s)); A (it_dt s); L (map of_tmo (it_lockwaits s)); locks_after].
 
-(* ---- datagram (op 4, 5): one _retry *)
-Definition dgram_recv (s : list recvans) : cbres bytes * list recvans * Z :=
-  match s with
-  | [] => (CbBlock false, [], 0)            (* nothing will ever arrive *)
-  | RData b c :: rest => (CbOk b, rest, c)
-  | RBlock w c :: rest => (CbBlock w, rest, c)
-  | RErr c :: rest => (CbRaise E_CONN, rest, c)
-  end.
-
+(* ---- datagram (op 4, 5): IO/Datagram.v *)
 Definition run_dgram_recv (ri T : tmo) (lk : option lockans) (s : list recvans) (sels : list selans) : sx :=
   let F := (length s + length sels + 2)%nat in
-  let k := match lk with Some l => lock_with_timeout T l | None => mk_lkres (Some T) 0 0 [] end in
-  match lk_T k with
-  | None => L [L [A (lk_exc k)]; L []; A (lk_dt k); L (map of_tmo (lk_waits k)); locks_after]
-  | Some T1 =>
-      let r := retry dgram_recv F ri T1 s sels in
+  match udp_recv_packet F ri T lk s sels with
+  | (k, None) => L [L [A (lk_exc k)]; L []; A (lk_dt k); L (map of_tmo (lk_waits k)); locks_after]
+  | (k, Some r) =>
       let o := match rr_out r with ROk p _ => L [A 0; B p] | RTimeout => L [A E_TIMEOUT] | RRaise c => L [A c] | RFuel => L [A 9] end in
       L [o; L (map of_wait (rr_waits r)); A (lk_dt k + rr_dt r); L (map of_tmo (lk_waits k)); locks_after]
-  end.
-
-(* datagram send: socket.send(data) accepts the whole datagram or raises *)
-Definition dgram_send (data : bytes) (s : sock) : cbres unit * sock * Z :=
-  match sk_script s with
-  | [] => (CbOk tt, mk_sock [] (sk_wire s ++ data), 0)
-  | SSent _ c :: rest => (CbOk tt, mk_sock rest (sk_wire s ++ data), c)
-  | SBlock w c :: rest => (CbBlock w, mk_sock rest (sk_wire s), c)
-  | SErr c :: rest => (CbRaise E_CONN, mk_sock rest (sk_wire s), c)
   end.
 
 Definition run_dgram_send (ri T : tmo) (lk : option lockans) (data : bytes) (script : list sockans) (sels : list selans) : sx :=
   let F := (length script + 2)%nat in
   let s := mk_sock script [] in
-  let k := match lk with Some l => lock_with_timeout T l | None => mk_lkres (Some T) 0 0 [] end in
-  match lk_T k with
-  | None => of_csres (mk_sres (SExc (lk_exc k)) s sels (lk_dt k) [] 0) (lk_waits k)
-  | Some T1 =>
-      let r := retry (dgram_send data) F ri T1 s sels in
+  match udp_send_packet F ri T lk data s sels with
+  | (k, None) => of_csres (mk_sres (SExc (lk_exc k)) s sels (lk_dt k) [] 0) (lk_waits k)
+  | (k, Some r) =>
       of_csres (mk_sres (rout_fail (rr_out r)) (rr_st r) (rr_sels r) (lk_dt k + rr_dt r) (rr_waits r) (rr_calls r)) (lk_waits k)
   end.
 
